@@ -117,7 +117,30 @@ void restore_context (error_context_t * econ) {
         csp = econ->save_csp + 1; /* Unwind the control stack to the saved position */
       pop_control_stack ();
     }
-  pop_n_elems (sp - econ->save_sp);
+  /* Drop what was pushed since save_context(). The stack can also be lower than it was: the
+   * callee of a context that was saved with arguments on the stack drops the ones it does
+   * not declare. There is nothing to drop then (and the difference is not a count). */
+  if (sp > econ->save_sp)
+    pop_n_elems (sp - econ->save_sp);
+}
+
+/**
+ * @brief restore_context() for a context that was saved with the arguments of the
+ * protected call on the stack (safe_apply(), safe_call_function_pointer()).
+ *
+ * A call that succeeds consumes its arguments; so does one that ends in an error. How
+ * many of them are still on the stack when the error is raised depends on the callee: it
+ * keeps the ones it has parameters for as locals, drops the excess ones (setup_variables())
+ * or collects them in an array (setup_varargs_variables()), a function pointer adds its bound
+ * arguments (merge_arg_lists()), an efun pops as it goes. What is left of them is above the
+ * stack level of the caller in every case.
+ *
+ * @param econ The error context structure to restore from.
+ * @param num_arg The number of arguments that were on the stack at save_context().
+ */
+void restore_context_args (error_context_t * econ, int num_arg) {
+  econ->save_sp -= num_arg;
+  restore_context (econ);
 }
 
 static volatile int in_error = 0;
